@@ -562,6 +562,10 @@ func blockedInGo9pOnce() map[string]string {
 			if strings.Contains(inner, "(*Conn).send") || strings.Contains(inner, "(*Clnt).send") {
 				continue
 			}
+			// so is an idle Tag processor (select on its request channels)
+			if strings.Contains(inner, "(*Tag).reqproc") && strings.Contains(head, "[select") {
+				continue
+			}
 			out[gid] = blk
 		}
 	}
